@@ -29,6 +29,8 @@ PANIC_CALLEES = [
     (r"^core::slice::(split_at|copy_from_slice|clone_from_slice|swap|chunks|windows|chunks_exact|rotate_left|rotate_right)$", "slice-op"),
     (r"^std::iter::Iterator::step_by$", "iter-op"),
     (r"^std::time::Instant::(duration_since|sub)$|as std::ops::Sub(<.*>)?>::sub$", "time-op"),
+    (r"^<std::time::(Instant|Duration|SystemTime) as std::ops::(Add|Mul|Div|AddAssign|SubAssign|MulAssign|DivAssign)", "time-op"),
+    (r"^std::time::Duration::(from_secs_f32|from_secs_f64|mul_f32|mul_f64|div_f32|div_f64|new)$", "time-op"),
     (r"^std::char::from_digit$", "char-op"),
     (r"^std::sync::Mutex::lock$", None),  # lock itself does not panic; the unwrap does
 ]
